@@ -225,16 +225,7 @@ func runC11(r *core.Run) {
 	// the same comparison on structured documents: every seed as it is, the 1-edit neighbourhood of the short ones, the
 	// nesting documents, and small tables with every cell content of the table check in every cell
 	{
-		var tdocs [][]byte
-		for _, c1 := range c17Contents {
-			for _, c2 := range c17Contents {
-				for _, al := range c17Aligns {
-					for placement := 0; placement < 4; placement++ {
-						tdocs = append(tdocs, []byte(place([]string{"|h|" + c1 + "|", "|" + al.delim + "|-|", "|" + c2 + "|" + c1 + "|", c2 + "|"}, placement)))
-					}
-				}
-			}
-		}
+		tdocs := TableDocs()
 		for _, e := range Seeds(r) {
 			tdocs = append(tdocs, []byte(e.Markdown))
 		}
